@@ -13,6 +13,8 @@ package main
 import (
 	"context"
 	"crypto/x509"
+	"encoding/base64"
+	"encoding/hex"
 	"errors"
 	"fmt"
 	"os"
@@ -24,9 +26,11 @@ import (
 	"github.com/notaryproject/notation-core-go/revocation"
 	"github.com/notaryproject/notation-core-go/revocation/result"
 	"github.com/notaryproject/notation-go"
+	"github.com/notaryproject/notation-go/plugin"
 	"github.com/notaryproject/notation-go/verifharness/lib"
 	"github.com/notaryproject/notation-go/verifier"
 	"github.com/notaryproject/notation-go/verifier/trustpolicy"
+	pf "github.com/notaryproject/notation-plugin-framework-go/plugin"
 	ocispec "github.com/opencontainers/image-spec/specs-go/v1"
 )
 
@@ -138,7 +142,11 @@ func main() {
 	desc := lib.Desc(ocispec.MediaTypeImageManifest, []byte("c06"))
 	payload := lib.Payload(desc)
 
-	tokens := []string{"absent", "good", "wrong-message", "untrusted-tsa", "tsa-root-in-ca-store-only", "eku-missing", "eku-extra", "eku-non-critical", "tsa-key-usage-without-signing", "tsa-certificate-is-a-ca", "tsa-store-unloadable", "tsa-store-empty", "tsa-certificate-younger-than-the-stamped-time", "tsa-issued-by-a-ca-restricted-to-code-signing", "tsa-revoked", "tsa-unknown", "tsa-validator-error",
+	// self-signed certificates that stamp tokens themselves and sit in the tsa store as their own anchor: a CA certificate, and
+	// one whose key usage does not include signing
+	tsaSelfCA := lib.Mint(nil, lib.CertSpec{CN: "c06-self-signed-tsa-ca", Kind: "tsa-ca", KeyIdx: 3, NotBefore: now.Add(-2900 * day), NotAfter: now.Add(2900 * day)})
+	tsaSelfKU := lib.Mint(nil, lib.CertSpec{CN: "c06-self-signed-tsa-keyusage", Kind: "tsa-keyusage", KeyIdx: 3, NotBefore: now.Add(-2900 * day), NotAfter: now.Add(2900 * day)})
+	tokens := []string{"absent", "good", "wrong-message", "wrong-message-base64url-text-of-the-signature", "wrong-message-hex-text-of-the-signature", "wrong-message-signed-payload", "tsa-self-signed-ca-certificate-as-its-own-anchor", "tsa-self-signed-without-signing-key-usage-as-its-own-anchor", "untrusted-tsa", "tsa-root-in-ca-store-only", "eku-missing", "eku-extra", "eku-non-critical", "tsa-key-usage-without-signing", "tsa-certificate-is-a-ca", "tsa-store-unloadable", "tsa-store-empty", "tsa-certificate-younger-than-the-stamped-time", "tsa-issued-by-a-ca-restricted-to-code-signing", "tsa-revoked", "tsa-unknown", "tsa-validator-error",
 		"gen-before-windows", "gen-after-windows", "accuracy-straddles-lower-edge", "accuracy-straddles-upper-edge", "accuracy-just-inside-upper-edge", "garbage"}
 	var cases []caseT
 	combos := [][2]string{{lib.MediaJWS, "notary.x509"}, {lib.MediaCOSE, "notary.x509"}, {lib.MediaJWS, "notary.x509.signingAuthority"}, {lib.MediaCOSE, "notary.x509.signingAuthority"}}
@@ -187,11 +195,12 @@ func main() {
 		ch   int
 		so   time.Duration
 		ex   string
+		plug bool
 	}
 	envs := map[ek][]byte{}
 	var emu sync.Mutex
-	envelope := func(c caseT) []byte {
-		k := ek{c.Format, c.Scheme, c.Chain, c.SignOff, c.Expiry}
+	envelope := func(c caseT, plug bool) []byte {
+		k := ek{c.Format, c.Scheme, c.Chain, c.SignOff, c.Expiry, plug}
 		emu.Lock()
 		defer emu.Unlock()
 		if b, ok := envs[k]; ok {
@@ -211,7 +220,11 @@ func main() {
 		case "future":
 			exp = now.Add(50 * day)
 		}
-		raw := lib.HandSign(lib.HandSpec{Format: c.Format, Scheme: c.Scheme, Payload: payload, Signer: chains[c.Chain].leaf, SigningTime: st, Expiry: exp})
+		var ext []lib.ExtAttr
+		if plug {
+			ext = []lib.ExtAttr{{Key: lib.HdrPlugin, Value: "plug", Critical: true}}
+		}
+		raw := lib.HandSign(lib.HandSpec{Format: c.Format, Scheme: c.Scheme, Payload: payload, Signer: chains[c.Chain].leaf, SigningTime: st, Expiry: exp, Ext: ext})
 		if _, err := lib.RefVerify(c.Format, raw); err != nil {
 			raw = nil // the reference refuses this envelope: integrity fails, the case says nothing about C06
 		}
@@ -221,7 +234,13 @@ func main() {
 
 	lib.Parallel(len(cases), 16, func(ci int) {
 		c := cases[ci]
-		raw := envelope(c)
+		// every fifth case: the signature names a verification plugin that owns trusted-identity verification (and approves):
+		// expiry and the authentic timestamp stay the library's business
+		withPlugin := ci%5 == 2
+		raw := envelope(c, withPlugin)
+		if withPlugin {
+			r.Event("cases-whose-signature-names-an-identity-plugin")
+		}
 		if raw == nil {
 			r.Event("skipped-reference-rejects-envelope")
 			return
@@ -255,6 +274,16 @@ func main() {
 		case "good":
 		case "wrong-message":
 			spec.Message, tokenOK = []byte("another message"), false
+		case "wrong-message-base64url-text-of-the-signature": // the countersignature is over the signature VALUE, not over a text form of it
+			spec.Message, tokenOK = []byte(base64.RawURLEncoding.EncodeToString(sigVal)), false
+		case "wrong-message-hex-text-of-the-signature":
+			spec.Message, tokenOK = []byte(hex.EncodeToString(sigVal)), false
+		case "wrong-message-signed-payload":
+			spec.Message, tokenOK = payload, false
+		case "tsa-self-signed-ca-certificate-as-its-own-anchor":
+			tsa, tsaInTSAStore, tokenOK = &lib.TSA{Key: tsaSelfCA.Key, Chain: tsaSelfCA.Chain()}, tsaSelfCA.Cert, false
+		case "tsa-self-signed-without-signing-key-usage-as-its-own-anchor":
+			tsa, tsaInTSAStore, tokenOK = &lib.TSA{Key: tsaSelfKU.Key, Chain: tsaSelfKU.Chain()}, tsaSelfKU.Cert, false
 		case "untrusted-tsa":
 			tsa, tokenOK = &lib.TSA{Key: untrustedTSA.Key, Chain: untrustedTSA.Chain()}, false
 		case "tsa-root-in-ca-store-only":
@@ -351,10 +380,14 @@ func main() {
 		trv := &tsRev{status: tsRevStatus}
 		var v notation.Verifier
 		var err error
+		var pm plugin.Manager
+		if withPlugin {
+			pm = lib.ScriptedManager{P: &lib.ScriptedPlugin{Caps: []pf.Capability{pf.CapabilityTrustedIdentityVerifier}}}
+		}
 		if (ci/3)%2 == 1 { // the deprecated constructor must hand the same validators on
-			v, err = verifier.NewWithOptions(lib.OCIPolicy(sv, stores, []string{"*"}), ts, nil, verifier.VerifierOptions{RevocationCodeSigningValidator: lib.OKRev{}, RevocationTimestampingValidator: trv})
+			v, err = verifier.NewWithOptions(lib.OCIPolicy(sv, stores, []string{"*"}), ts, pm, verifier.VerifierOptions{RevocationCodeSigningValidator: lib.OKRev{}, RevocationTimestampingValidator: trv})
 		} else {
-			v, err = verifier.NewVerifierWithOptions(ts, verifier.VerifierOptions{OCITrustPolicy: lib.OCIPolicy(sv, stores, []string{"*"}), RevocationCodeSigningValidator: lib.OKRev{}, RevocationTimestampingValidator: trv})
+			v, err = verifier.NewVerifierWithOptions(ts, verifier.VerifierOptions{OCITrustPolicy: lib.OCIPolicy(sv, stores, []string{"*"}), PluginManager: pm, RevocationCodeSigningValidator: lib.OKRev{}, RevocationTimestampingValidator: trv})
 		}
 		if err != nil {
 			panic(err)
